@@ -171,6 +171,24 @@ func (a *vfActor) onAskMsg(ctx vivid.ActorContext, m *vfAskMsg, fw *vfFutWorld) 
 // read by the runner; keyed by asker index, valid for the case being run)
 var vfFutRespawn map[int]bool
 
+// default Ask timeouts of the case being run: per asker (WithActorDefaultAskTimeout, 0 = not set) and of the system
+// (WithActorSystemDefaultAskTimeout, 0 = not set, i.e. the library's 1 s). An Ask without an explicit timeout must time
+// out exactly at the asker's own default if it has one, else at the system's.
+var (
+	vfFutAskerDefault map[int]time.Duration
+	vfFutSysDefault   time.Duration
+)
+
+func vfFutEffectiveDefault(asker int) time.Duration {
+	if d := vfFutAskerDefault[asker]; d > 0 {
+		return d
+	}
+	if vfFutSysDefault > 0 {
+		return vfFutSysDefault
+	}
+	return time.Second
+}
+
 // vfGenKillRace: the asker dies while many of its Asks are outstanding and others are completing at that very moment.
 // Old asks (issued at 0: never answered, or answered long after the kill; no / long / default timeout) are certainly
 // outstanding at the kill instant kt; at kt a volley of new asks that are answered at once is issued together with the
@@ -225,6 +243,11 @@ func vfGenKillRace(rng *verifrt.Rand) (nAskers, nResp int, asks []vfAskSpec, kil
 
 func vfGenFutures(rng *verifrt.Rand) (nAskers, nResp int, asks []vfAskSpec, kills map[int]time.Duration) {
 	vfFutRespawn = map[int]bool{}
+	vfFutAskerDefault = map[int]time.Duration{}
+	vfFutSysDefault = []time.Duration{0, 0, 700 * time.Millisecond, 40 * time.Millisecond}[rng.Intn(4)]
+	for k := 0; k < 5; k++ {
+		vfFutAskerDefault[k] = []time.Duration{0, 0, 50 * time.Millisecond, 300 * time.Millisecond, 1500 * time.Millisecond}[rng.Intn(5)]
+	}
 	if rng.Chance(15) {
 		return vfGenKillRace(rng)
 	}
@@ -282,7 +305,11 @@ func vfGenFutures(rng *verifrt.Rand) (nAskers, nResp int, asks []vfAskSpec, kill
 var vfFutTol time.Duration
 
 func vfRunFutures(nAskers, nResp int, asks []vfAskSpec, kills map[int]time.Duration, res *vfCellResult) {
-	w := newVfWorld()
+	var sysOpts []vivid.ActorSystemOption
+	if vfFutSysDefault > 0 {
+		sysOpts = append(sysOpts, vivid.WithActorSystemDefaultAskTimeout(vfFutSysDefault))
+	}
+	w := newVfWorld(sysOpts...)
 	res.w = w
 	fw := &vfFutWorld{vfWorld: w, futs: map[int]*vfFutRec{}, replies: map[int][]time.Duration{}, errClosed: errors.New("vf-closed")}
 	w.fut = fw
@@ -294,7 +321,7 @@ func vfRunFutures(nAskers, nResp int, asks []vfAskSpec, kills map[int]time.Durat
 		return
 	}
 	for k := 0; k < nAskers; k++ {
-		w.spawnTop(&vfSpec{Name: fmt.Sprintf("k%d", k)})
+		w.spawnTop(&vfSpec{Name: fmt.Sprintf("k%d", k), AskTimeout: vfFutAskerDefault[k]})
 	}
 	for r := 0; r < nResp; r++ {
 		w.spawnTop(&vfSpec{Name: fmt.Sprintf("r%d", r)})
@@ -394,7 +421,7 @@ func vfRunFutures(nAskers, nResp int, asks []vfAskSpec, kills map[int]time.Durat
 		w.wait()
 		for x := i; x < j; x++ {
 			if acts[x].kind == "kill" && vfFutRespawn[acts[x].k] {
-				w.spawnTop(&vfSpec{Name: fmt.Sprintf("k%d", acts[x].k)})
+				w.spawnTop(&vfSpec{Name: fmt.Sprintf("k%d", acts[x].k), AskTimeout: vfFutAskerDefault[acts[x].k]})
 			}
 		}
 		w.wait()
@@ -474,7 +501,7 @@ func vfRunFutures(nAskers, nResp int, asks []vfAskSpec, kills map[int]time.Durat
 		var cands []cand
 		var earliest time.Duration
 		var ok bool
-		to := time.Second
+		to := vfFutEffectiveDefault(sp.Asker)
 		if rp := fw.replies[id]; len(rp) > 0 {
 			cands = append(cands, cand{rp[0], ""})
 		}
@@ -642,7 +669,7 @@ func vfRunFutureCases(t *testing.T, R *verifrt.Report, n int) {
 	}
 }
 
-const vfFutRule = "PRNG scenarios in a synctest bubble: 1-50 Asks from 1-5 asker actors to scripted responders {reply now, reply after d in 1ns..2s, never, reply twice}, timeouts {1ns, 1us, 1ms, 10ms, 100ms, 0 (= none), default 1s}, 1-8 goroutines per future blocked in Result()/Wait(), Close and PipeTo (1-2 forwarder actors) from other goroutines before / at / after completion, asker killed at a chosen instant; actions of one virtual instant race for real. Oracle: all observers of a future agree on (value, error, instant); the value is the first reply carrying the future's own ask id; the completion is the earliest of {first reply instant, ask+timeout, asker kill, Close} with the matching outcome (ties at one instant accepted either way); each forwarder gets exactly one PipeResult equal to Result(); afterwards the registry and futureAgents hold nothing. non-trivial+distinct = distinct scenarios with >= 1 completed future"
+const vfFutRule = "PRNG scenarios in a synctest bubble: 1-50 Asks from 1-5 asker actors to scripted responders {reply now, reply after d in 1ns..2s, never, reply twice}, timeouts {1ns, 1us, 1ms, 10ms, 100ms, 0 (= none), default: the asker's own WithActorDefaultAskTimeout (50 ms / 300 ms / 1.5 s) if set, else the system's WithActorSystemDefaultAskTimeout (40 ms / 700 ms) if set, else 1 s}, 1-8 goroutines per future blocked in Result()/Wait(), Close and PipeTo (1-2 forwarder actors) from other goroutines before / at / after completion, asker killed at a chosen instant; actions of one virtual instant race for real. Oracle: all observers of a future agree on (value, error, instant); the value is the first reply carrying the future's own ask id; the completion is the earliest of {first reply instant, ask+timeout, asker kill, Close} with the matching outcome (ties at one instant accepted either way); each forwarder gets exactly one PipeResult equal to Result(); afterwards the registry and futureAgents hold nothing. non-trivial+distinct = distinct scenarios with >= 1 completed future"
 
 func TestVerif_futures(t *testing.T) {
 	R := verifrt.NewReport("futures", vfFutRule)
